@@ -97,6 +97,7 @@ def _worker_main(argv: List[str]) -> int:
     mod = load_check(prop)
     with open(shard_path) as fh:
         shard = json.load(fh)
+    reach = _start_reach()
     try:
         if shard.get("__replay__"):
             vs = mod.replay(shard["witness"])
@@ -107,12 +108,36 @@ def _worker_main(argv: List[str]) -> int:
         else:
             res = mod.run_shard(shard)
         out = res.to_json()
+        out["reach"] = sorted(reach)
     except BaseException as e:  # harness failure, not a verdict
         out = Result().to_json()
         out["inconclusive"] = [f"worker crashed: {type(e).__name__}: {e}\n{traceback.format_exc()[-2500:]}"]
     with open(out_path, "w") as fh:
         json.dump(out, fh)
     return 0
+
+
+def _start_reach() -> set:
+    """reach monitor: which functions of the tree under test were entered in this worker (sys.monitoring
+    PY_START, each code object disabled after its first hit, so the overhead is a one-off per function)"""
+    seen: set = set()
+    try:
+        mon = sys.monitoring
+        tool = mon.COVERAGE_ID
+        mon.use_tool_id(tool, "vf-reach")
+        prefix = os.path.realpath(env.SRC) + os.sep
+
+        def on_start(code, offset):
+            fn = code.co_filename
+            if fn.startswith(prefix):
+                seen.add(fn[len(prefix):] + ":" + code.co_qualname)
+            return mon.DISABLE
+
+        mon.register_callback(tool, mon.events.PY_START, on_start)
+        mon.set_events(tool, mon.events.PY_START)
+    except Exception:
+        pass
+    return seen
 
 
 def run_worker(prop: str, shard: dict, timeout: int, tag: str) -> dict:
@@ -236,7 +261,9 @@ def run_check(prop: str, tier: str, seed: int, replay_path: Optional[str] = None
 
     merged = Result()
     stderr_tails = []
+    reach_all: set = set()
     for o in outs:
+        reach_all.update(o.get("reach", []))
         merged.evaluations += o["evaluations"]
         merged.distinct.update(o["distinct"])
         merged.distinct_extra += o.get("distinct_extra", 0)
@@ -264,6 +291,10 @@ def run_check(prop: str, tier: str, seed: int, replay_path: Optional[str] = None
                 merged.extra.setdefault(k, val)
         merged.violations.extend(o["violations"])
 
+    # anchors: the functions the property is anchored in must have been entered by the workload
+    anchors = getattr(mod, "ANCHORS", [])
+    missing_anchors = [a for a in anchors if not any(r.endswith(a) for r in reach_all)]
+    # (recorded in the evidence only: a refactoring that renames an anchored function must not change the verdict)
     # floors: a run that observed too little is inconclusive, not "held"
     floors = getattr(mod, "FLOORS", {})
     if floors and isinstance(next(iter(floors.values())), dict):
@@ -335,7 +366,14 @@ def run_check(prop: str, tier: str, seed: int, replay_path: Optional[str] = None
         "violation_signatures": [{"sub": g["sub"], "sig": g["sig"], "count": g["count"]} for g in confirmed],
         "inconclusive_reasons": merged.inconclusive[:10],
     }
+    coverage["reach"] = {"functions_of_tree_entered": len(reach_all), "anchors_declared": anchors, "anchors_missing": missing_anchors,
+                         "sample": sorted(reach_all)[:40]}
     coverage.update(merged.extra)
+    if "plugin_reach" in coverage:
+        pa = getattr(mod, "PLUGIN_ANCHORS", [])
+        pr = coverage.pop("plugin_reach")
+        coverage["plugin_reach"] = {"functions_of_plugin_entered": len(pr), "anchors_declared": pa,
+                                    "anchors_missing": [a for a in pa if not any(r.endswith(a) for r in pr)], "sample": pr[:30]}
     if hasattr(mod, "coverage_extra"):
         coverage.update(mod.coverage_extra(merged, tier))
     if getattr(mod, "LEVEL", "exploration") == "translation_validation":
